@@ -9,8 +9,138 @@
 -/
 import LispModel.ConcFut
 import LispModel.Proofs.ConcBaseline
+import LispModel.Proofs.ConcFutAll
+import LispModel.Proofs.LinSound
+import LispModel.Spec.ConcObj
 namespace LispModel.Props.C10
-open LispModel.Conc LispModel.Conc.Fut Proofs.ConcBaseline
+open LispModel.Conc LispModel.Conc.Fut Proofs.ConcBaseline Proofs.ConcFut
+
+/-! ### the fixed programs (`prog`): any number of client threads, any interleaving
+
+`FReachable kinds progs s`: `s` is reached by some schedule from the state right after the `future`
+calls returned (future `f` has body kind `kinds[f]`, client `t` issues the operations `progs[t]`).
+Scheduler labels include the end of a client's context (`endCtx`) and the `select` arm taken. -/
+
+/-- `NewFuture` starts exactly one goroutine and has no loop (regenerated fact `program .newFuture`) -/
+theorem newFuture_spawns_once :
+    (prog .newFuture).count .spawn = 1 ∧ (prog .newFuture).all (fun m => match m with
+      | .jmp _ | .brNe _ _ | .brTrue _ _ => false
+      | _ => true) = true := by decide
+
+/-- the body function is applied at most once, exactly once as soon as the body is past its `Apply` -/
+theorem body_runs_once {kinds progs s} (hr : FReachable kinds progs s) (f : Nat) :
+    (s.futs f).runs ≤ 1 ∧ ((s.futs f).res ≠ none → (s.futs f).runs = 1) ∧
+    (∀ b, (s.futs f).body = some b → ¬ (b.pc = 0 ∧ b.returning = false) → (s.futs f).runs = 1) :=
+  Proofs.ConcFut.body_runs_once (fut_invariant hr).out f
+
+/-- at most one outcome item exists — in `ValChan`, in `ErrChan`, or in the hands of one reader between
+    its receive and its re-deposit — and it is the body's outcome; nothing exists before the body sent -/
+theorem single_outcome_invariant {kinds progs s} (hr : FReachable kinds progs s) (f : Nat) :
+    (¬ sent (s.futs f) → (s.futs f).valCh = none ∧ (s.futs f).errCh = none ∧ ∀ t, ¬ inflight s t f) ∧
+    (∀ v, (s.futs f).valCh = some v →
+      (s.futs f).res = some (false, v) ∧ (s.futs f).errCh = none ∧ ∀ t, ¬ inflight s t f) ∧
+    (∀ e, (s.futs f).errCh = some e →
+      (s.futs f).res = some (true, e) ∧ (s.futs f).valCh = none ∧ ∀ t, ¬ inflight s t f) ∧
+    (∀ t, inflight s t f →
+      (s.futs f).valCh = none ∧ (s.futs f).errCh = none ∧ ∀ t', t' ≠ t → ¬ inflight s t' f) :=
+  let h := (fut_invariant hr).out
+  ⟨h.unsent f, h.inVal f, h.inErr f, fun t => h.inHand t f⟩
+
+/-- every deref that returned an outcome returned the body's outcome: all derefs, from any thread and
+    any number of times, agree -/
+theorem all_derefs_agree {kinds progs s} (hr : FReachable kinds progs s) {t t' : Nat} {n n' : OpName}
+    {f : Nat} {o o' : Outcome}
+    (hm : (n, f, Resp.out o) ∈ (s.threads t).out) (hm' : (n', f, Resp.out o') ∈ (s.threads t').out) :
+    o = o' ∧ (s.futs f).res = some o :=
+  ⟨Proofs.ConcFut.all_derefs_agree (fut_invariant hr).out hm hm',
+   deref_returns_result (fut_invariant hr).out hm⟩
+
+/-- a reader that has received the outcome can always re-deposit it (its next step is enabled) -/
+theorem deref_never_blocks_on_redeposit {kinds progs s} (hr : FReachable kinds progs s) {t arm : Nat}
+    {fr : FFrame} (hc : (s.threads t).cur = some fr) (hn : fr.name = .derefF) (hpc : fr.pc = 1)
+    (hnr : fr.returning = false) : (fstep prog s (.thr t arm)).isSome = true :=
+  Proofs.ConcFut.deref_never_blocks_on_redeposit (fut_invariant hr).out hc hn hpc hnr
+
+/-- `Done`, `Cancelled` (and the cancellation of the body's context) never go back from true to false -/
+theorem flags_monotone {sched : List Label} {s s' : FState} (h : frun prog sched s = some s') (f : Nat) :
+    ((s.futs f).done = true → (s'.futs f).done = true) ∧
+    ((s.futs f).cancelled = true → (s'.futs f).cancelled = true) ∧
+    ((s.futs f).ctxCancelled = true → (s'.futs f).ctxCancelled = true) :=
+  flags_monotone_run h f
+
+/-- `future-done?` is true as soon as any deref of that future has returned an outcome -/
+theorem done_after_any_deref {kinds progs s} (hr : FReachable kinds progs s) {t : Nat} {n : OpName}
+    {f : Nat} {o : Outcome} (hm : (n, f, Resp.out o) ∈ (s.threads t).out) : (s.futs f).done = true :=
+  Proofs.ConcFut.done_after_any_deref (fut_invariant hr).out hm
+
+
+/-- `future-cancel` on a future that completed without having been cancelled returns false and changes
+    nothing: from any reachable state in which the future is done and not cancelled, along every
+    further run it stays done and not cancelled, its context is untouched, and every `future-cancel` of
+    it that has returned answered false -/
+theorem cancel_after_completion_is_noop {kinds progs s} (hr : FReachable kinds progs s)
+    {sched : List Label} {s' : FState} {f : Nat}
+    (hd : (s.futs f).done = true) (hnc : (s.futs f).cancelled = false)
+    (hrun : frun prog sched s = some s') :
+    (s'.futs f).done = true ∧ (s'.futs f).cancelled = false ∧
+    (s'.futs f).ctxCancelled = (s.futs f).ctxCancelled ∧
+    ∀ t b, (OpName.cancel, f, Resp.flag b) ∈ (s'.threads t).out → b = false :=
+  Proofs.ConcFut.cancel_after_completion_is_noop (fut_invariant hr) hd hnc hrun
+
+/-- `future-cancel` on a future still running (its check under `mu` found `Done` unset: ghost `took` is
+    false; `cancel_check`): once past its write section the future is cancelled, the body's context is
+    cancelled, the future is done (all three for ever, `flags_monotone`), and the call answers true -/
+theorem cancel_running_sets_cancelled {kinds progs s} (hr : FReachable kinds progs s) {t : Nat}
+    {fr : FFrame} (hc : (s.threads t).cur = some fr) (hn : fr.name = .cancel) (htk : fr.took = false)
+    (hpast : fr.returning = true ∨ fr.pc = 6 ∨ fr.pc = 7) :
+    (s.futs fr.fut).cancelled = true ∧ (s.futs fr.fut).ctxCancelled = true ∧ (s.futs fr.fut).done = true ∧
+    ((fr.returning = true ∨ fr.pc = 7) → fr.flag = true) :=
+  Proofs.ConcFut.cancel_running_sets_cancelled (fut_invariant hr) hc hn htk hpast
+
+/-- the check itself: `Done` unset ⇒ falls into the write section, `Done` set ⇒ skips it (ghost `took`) -/
+theorem cancel_check {o : Owner} {arm : Nat} {ce : Bool} {fr fr' : FFrame} {F F' : FutS}
+    (hex : execF o arm ce (.brTrue .done 6) fr F = some (fr', F')) :
+    F' = F ∧ (F.done = false → fr'.pc = fr.pc + 1 ∧ fr'.took = fr.took) ∧
+    (F.done = true → fr'.pc = 6 ∧ fr'.took = true) :=
+  Proofs.ConcFut.cancel_check hex
+
+/-- a returned `future-cancel` tells the truth: the future is done, and if it answered true it is cancelled -/
+theorem cancel_response_sound {kinds progs s} (hr : FReachable kinds progs s) {t f : Nat} {b : Bool}
+    (hm : (OpName.cancel, f, Resp.flag b) ∈ (s.threads t).out) :
+    (s.futs f).done = true ∧ (b = true → (s.futs f).cancelled = true) :=
+  (fut_invariant hr).resp t f b hm
+
+/-- every access to `Done` / `Cancelled` is made with the future's `mu` held -/
+theorem flag_accesses_guarded {kinds progs s} (hr : FReachable kinds progs s) {o : Owner} {fr : FFrame}
+    {l : Loc} {w : Bool} (hfr : frameOf s o = some fr) (hacc : fr.nextAccess prog = some (l, w)) :
+    (s.futs fr.fut).mu = some o :=
+  (fut_invariant hr).mu.access_guarded hfr hacc
+
+/-- no data race on the flags: two different owners (client threads, body goroutines) are never both
+    about to access a flag of the same future -/
+theorem future_data_race_free {kinds progs s} (hr : FReachable kinds progs s) {o o' : Owner}
+    {fr fr' : FFrame} {a a' : Loc × Bool} (hne : o ≠ o') (hfr : frameOf s o = some fr)
+    (hfr' : frameOf s o' = some fr') (hsame : fr.fut = fr'.fut)
+    (hacc : fr.nextAccess prog = some a) (hacc' : fr'.nextAccess prog = some a') : False :=
+  (fut_invariant hr).mu.no_flag_race hne hfr hfr' hsame hacc hacc'
+
+/-- while an owner holds `mu` of a future nobody else changes its flags -/
+theorem flags_stable_under_mu {kinds progs s} (hr : FReachable kinds progs s) {s' : FState} {l : Label}
+    {f : Nat} {o : Owner} (hmu : (s.futs f).mu = some o) (hl : labelOwner l ≠ some o)
+    (hs : fstep prog s l = some s') :
+    (s'.futs f).done = (s.futs f).done ∧ (s'.futs f).cancelled = (s.futs f).cancelled ∧
+    (s'.futs f).ctxCancelled = (s.futs f).ctxCancelled :=
+  Proofs.ConcFut.flags_stable_under_mu (fut_invariant hr).mu hmu hl hs
+
+/-- the checker the `conc` engine runs on every recorded future history is sound: an accepted history
+    is linearizable w.r.t. the sequential future object (Spec/ConcObj.lean) -/
+theorem linCheck_sound (final : Spec.ConcObj.FutState → Bool) (s0 : Spec.ConcObj.FutState)
+    (h : List (Spec.Lin.HOp Spec.ConcObj.FutOp))
+    (hc : Spec.Lin.linCheck Spec.ConcObj.futObj final s0 h = true) :
+    Spec.Lin.Linearizable Spec.ConcObj.futObj final s0 h :=
+  Proofs.LinSound.linCheck_sound _ _ _ _ hc
+
+/-! ### the programs of the source as it stands (baseline): counterexamples by evaluation -/
 
 /-- D15 (baseline): `(do @f (future-done? f))` can give false: the reader gets the value, re-deposits
     it, returns, and reads `Done` before the body's deferred `Done = true` -/
